@@ -1,28 +1,45 @@
 #!/usr/bin/env python3
-"""tools/mkround8.py - fills the last column of docs/round8.md (result of the property's check against each round-8 seed
-as stored in seeded/<id>/meta.json by the latest tools/try_seed.py run); placeholders are @@<id>@@ or an earlier fill."""
-import json, os, re
+"""tools/mkround8.py - fills the last column of docs/round8.md and docs/round9.md (result of the property's check against
+each seed of that round as stored in seeded/<id>/meta.json by the latest tools/try_seed.py run); the cell holds the
+placeholder @@<id>@@ or an earlier fill."""
+import json
+import os
+import re
+
 HERE = os.path.dirname(os.path.dirname(os.path.abspath(__file__)))
-p = os.path.join(HERE, 'docs', 'round8.md')
-out = []
-for line in open(p):
-    m = re.match(r'^\| (C\d\d-[op]) \|', line)
-    if m:
-        sid = m.group(1)
-        meta = json.load(open(os.path.join(HERE, 'seeded', sid, 'meta.json')))
-        res = []
-        for k, v in sorted((meta.get('confirmed') or {}).get('checks', {}).items()):
-            ls = ' '.join(v.get('lines', []))
-            r = re.search(r'replay=\S*/(fail-[^\s]*?)-seed\d+\.json', ls)
-            if 'no-failing-input-found' in ls:
-                res.append('%s: tie only' % k)
-            elif r:
-                res.append('%s: failing input (`%s`)' % (k, r.group(1).replace('fail-', '')))
-            else:
-                res.append('%s: exit %s' % (k, v.get('exit')))
-        cells = line.rstrip('\n').split(' | ')
-        cells[-1] = '; '.join(res) + ' |'
-        line = ' | '.join(cells) + '\n'
-    out.append(line)
-open(p, 'w').write(''.join(out))
-print('docs/round8.md updated')
+
+
+def result_of(sid):
+    meta = json.load(open(os.path.join(HERE, 'seeded', sid, 'meta.json')))
+    res = []
+    for k, v in sorted((meta.get('confirmed') or {}).get('checks', {}).items()):
+        ls = ' '.join(v.get('lines', []))
+        r = re.search(r'replay=\S*/(fail-[^\s]*?)-seed\d+\.json', ls)
+        if 'no-failing-input-found' in ls:
+            res.append('%s: tie only' % k)
+        elif r:
+            res.append('%s: failing input (`%s`)' % (k, r.group(1).replace('fail-', '')))
+        else:
+            res.append('%s: exit %s' % (k, v.get('exit')))
+    return '; '.join(res)
+
+
+def main():
+    for name in ('round8.md', 'round9.md'):
+        p = os.path.join(HERE, 'docs', name)
+        if not os.path.exists(p):
+            continue
+        out = []
+        for line in open(p):
+            m = re.match(r'^\| (C\d\d-[opqr]) \|', line)
+            if m:
+                cells = line.rstrip('\n').split(' | ')
+                cells[-1] = result_of(m.group(1)) + ' |'
+                line = ' | '.join(cells) + '\n'
+            out.append(line)
+        open(p, 'w').write(''.join(out))
+        print('docs/%s updated' % name)
+
+
+if __name__ == '__main__':
+    main()
